@@ -15,7 +15,15 @@ use std::fmt::Debug;
 use std::str::FromStr;
 
 fn by_name(tape: &[u32], st: &mut Stats) -> CaseResult {
-    let cfg = HistCfg { prop: "C10", weights: [3, 6, 0, 1, 1, 1, 3], max_steps: 6, check_print: false, check_serde: false, weird_pct: 5 };
+    by_name_with(tape, st, 0)
+}
+/// the same histories on operands in which about one node in twelve carries a tower of 14-43 unary
+/// operators (beyond the 16 a node stores inline)
+fn by_name_towers(tape: &[u32], st: &mut Stats) -> CaseResult {
+    by_name_with(tape, st, 8)
+}
+fn by_name_with(tape: &[u32], st: &mut Stats, tower_pct: u32) -> CaseResult {
+    let cfg = HistCfg { prop: "C10", weights: [3, 6, 0, 1, 1, 1, 3], max_steps: 6, check_print: false, check_serde: false, weird_pct: 5, tower_pct: tower_pct };
     let out = run_history(tape, st, &cfg)?;
     st.class_if(out.steps >= 2, ">=2 applications");
     st.class_if(out.n_bin_diff_vars >= 1, "binary application on operands with different variable sets");
@@ -389,6 +397,11 @@ pub fn def() -> PropDef {
                 name: "by_name",
                 rule: "tape -> table x pool of 3 parsed expressions x 1-6 steps (operate_unary, operate_binary, conversions, unknown names, DeepEx helper methods and the overloaded operators - & | ^ % and unary minus against tables that may or may not define the name); non-trivial = >=2 applications incl. a binary one on operands with different variable sets; distinct by history",
                 kind: Kind::Tape { len: 500, quick: 20_000, thorough: 1_000_000, f: by_name },
+            },
+            SubCheck {
+                name: "by_name_towers",
+                rule: "as by_name with operands in which about one node in twelve carries a tower of 14-43 unary operators (a node stores 16 inline); non-trivial as by_name",
+                kind: Kind::Tape { len: 1100, quick: 5000, thorough: 250000, f: by_name_towers },
             },
             SubCheck {
                 name: "simplifying_f64",
